@@ -49,6 +49,15 @@ func genC20(rng *rand.Rand, n int, emit func(Case), dist map[string]int) {
 			seen[rKey(r)] = true
 			rs = append(rs, r)
 		}
+		if !structural && rng.Intn(8) == 0 {
+			// several routes with escaped colons sharing prefixes (registered in random order)
+			rs = nil
+			for _, p := range rEscTables[rng.Intn(len(rEscTables))] {
+				rs = append(rs, rRoute{[]string{"GET", "POST"}[rng.Intn(2)], p})
+			}
+			rng.Shuffle(len(rs), func(i, j int) { rs[i], rs[j] = rs[j], rs[i] })
+			dist["escaped_colon_tables"]++
+		}
 		var forced []string
 		if !structural && rng.Intn(8) == 0 {
 			// a parameter route plus its own instance as a LITERAL route for another method only: the reversed URL spells
@@ -81,6 +90,26 @@ func genC20(rng *rand.Rand, n int, emit func(Case), dist map[string]int) {
 		out := &rOutcome{}
 		names := make([]string, len(rs))
 		var firstHandler echo.HandlerFunc
+		// a single route may live in a group with middleware (prefix /grp), or in a sub-group of a host group (prefix /api)
+		via := 0
+		var grp *echo.Group
+		hostName := ""
+		if len(rs) == 1 && !strings.Contains(rs[0].pattern, `\:`) {
+			via = rng.Intn(4)
+		}
+		pass := func(next echo.HandlerFunc) echo.HandlerFunc { return func(c echo.Context) error { return next(c) } }
+		rel := ""
+		switch via {
+		case 1:
+			grp, rel = e.Group("/grp", pass), rs[0].pattern
+			rs[0].pattern = "/grp" + rel
+			dist["route_in_a_group_with_middleware"]++
+		case 2:
+			hostName = "admin.example.com"
+			grp, rel = e.Host(hostName).Group("/api"), rs[0].pattern
+			rs[0].pattern = "/api" + rel
+			dist["route_in_a_host_sub_group"]++
+		}
 		for i, r := range rs {
 			id := i
 			hf := func(c echo.Context) error {
@@ -90,7 +119,12 @@ func genC20(rng *rand.Rand, n int, emit func(Case), dist map[string]int) {
 			if i == 0 {
 				firstHandler = hf
 			}
-			rt := e.Add(r.method, r.pattern, hf)
+			var rt *echo.Route
+			if grp != nil {
+				rt = grp.Add(r.method, rel, hf)
+			} else {
+				rt = e.Add(r.method, r.pattern, hf)
+			}
 			if len(rs) > 1 {
 				rt.Name = fmt.Sprintf("route-%d", i) // (a single route keeps its default name, the handler's: Echo.URI finds it by that)
 			}
@@ -140,8 +174,14 @@ func genC20(rng *rand.Rand, n int, emit func(Case), dist map[string]int) {
 			args = append(args, v)
 		}
 		rev := e.Reverse(names[ti], args...)
+		if hostName != "" {
+			rev = ""
+			if hr := e.Routers()[hostName]; hr != nil {
+				rev = hr.Reverse(names[ti], args...) // the route belongs to the host's router
+			}
+		}
 		viaHandler, viaHandlerSet := "", false
-		if len(rs) == 1 {
+		if len(rs) == 1 && hostName == "" {
 			// the other entry point: look the route up by its handler (Echo.URI / Echo.URL)
 			viaHandler, viaHandlerSet = e.URI(firstHandler, args...), true
 			if rng.Intn(2) == 0 {
@@ -149,6 +189,9 @@ func genC20(rng *rand.Rand, n int, emit func(Case), dist map[string]int) {
 			}
 		}
 		req := httptest.NewRequest(target.method, "/", nil)
+		if hostName != "" {
+			req.Host = hostName
+		}
 		req.URL = &url.URL{Path: rev}
 		if u, perr := url.ParseRequestURI(rev); perr == nil && !strings.ContainsAny(rev, " ?#") && rng.Intn(2) == 0 {
 			// requested the way a client sends it: as the request target, so that percent-escapes in a value stay escapes
